@@ -235,6 +235,10 @@ bool Table::OnBuildFinish() {
     return false;
   }
   string_table_builder_->Dump(image, image_size);
+  // allocating the image may have grown and remapped the file.
+  metadata_ = Find<table::Metadata>(0);
+  syllabary_ = metadata_->syllabary.get();
+  index_ = metadata_->index.get();
   metadata_->string_table = image;
   metadata_->string_table_size = image_size;
   RIME_VERIF_CRASHPOINT("Table::OnBuildFinish:end");
@@ -312,6 +316,50 @@ uint32_t Table::dict_file_checksum() const {
   return metadata_ ? metadata_->dict_file_checksum : 0;
 }
 
+// the exact number of bytes BuildTrunkIndex / BuildTailIndex allocate for a
+// level of the vocabulary.
+static size_t PhraseIndexSize(const Vocabulary& vocabulary, size_t level) {
+  if (level >= Code::kIndexCodeMaxLength) {
+    auto tail = vocabulary.find(-1);
+    if (tail == vocabulary.end())
+      return 0;
+    const auto& entries = tail->second.entries;
+    size_t size = sizeof(table::TailIndex) - sizeof(table::LongEntry) +
+                  sizeof(table::LongEntry) * entries.size();
+    for (const auto& e : entries) {
+      if (e->code.size() > Code::kIndexCodeMaxLength)
+        size += sizeof(SyllableId) *
+                (e->code.size() - Code::kIndexCodeMaxLength);
+    }
+    return size;
+  }
+  size_t size = sizeof(table::TrunkIndex) - sizeof(table::TrunkIndexNode) +
+                sizeof(table::TrunkIndexNode) * vocabulary.size();
+  for (const auto& v : vocabulary) {
+    size += sizeof(table::Entry) * v.second.entries.size();
+    if (v.second.next_level)
+      size += PhraseIndexSize(*v.second.next_level, level + 1);
+  }
+  return size;
+}
+
+// the exact number of bytes Build allocates for metadata, syllabary and index.
+// the file must not grow while these are being built: growing remaps it, and
+// the index nodes and the string table builder hold raw pointers into it.
+static size_t IndexSize(const Vocabulary& vocabulary, size_t num_syllables) {
+  size_t size = sizeof(table::Metadata) + sizeof(table::Syllabary) -
+                sizeof(table::StringType) +
+                sizeof(table::StringType) * num_syllables +
+                sizeof(table::HeadIndex) - sizeof(table::HeadIndexNode) +
+                sizeof(table::HeadIndexNode) * num_syllables;
+  for (const auto& v : vocabulary) {
+    size += sizeof(table::Entry) * v.second.entries.size();
+    if (v.second.next_level)
+      size += PhraseIndexSize(*v.second.next_level, 1);
+  }
+  return size;
+}
+
 bool Table::Build(const Syllabary& syllabary,
                   const Vocabulary& vocabulary,
                   size_t num_entries,
@@ -320,6 +368,9 @@ bool Table::Build(const Syllabary& syllabary,
   size_t num_syllables = syllabary.size();
   size_t estimated_file_size =
       kReservedSize + 32 * num_syllables + 64 * num_entries;
+  estimated_file_size =
+      (std::max)(estimated_file_size,
+                 kReservedSize + IndexSize(vocabulary, num_syllables));
   LOG(INFO) << "building table.";
   LOG(INFO) << "num syllables: " << num_syllables;
   LOG(INFO) << "num entries: " << num_entries;
